@@ -177,6 +177,11 @@ func c13(c *Check) {
 	c.Rule("C13/reader-tokenisation", "a reader that tokenises iterator keys with an unbounded strings.Split on \"/\" must not range over a family with a binary (big-endian height) component: a 0x2f byte inside the height changes the element count / positions", 4)
 	tokenisationRule(c, "C13/reader-tokenisation", fams)
 
+	c.Rule("C13/derived-indexes-rebuilt-completely", "the aggregate index families are not exported but re-derived on import: InitGenesis must index every imported pair by its contract address and by ALL of its denominations under the pair's id (shared with C12/three-way-write)", 2)
+	threeWayRule(c, "C13/derived-indexes-rebuilt-completely", "x/aggregate.InitGenesis", func(p string) []string {
+		return []string{"go-ethereum/common.HexToAddress(" + p + ".ERC20Address)", "aggregate/types.(TokenPair).GetERC20Contract(" + p + ")"}
+	})
+
 	c.Rule("C13/fresh-decode-target", "a value decoded inside an iterator loop is decoded into a target allocated in that loop iteration (protobuf Unmarshal appends to repeated fields of a reused target, so a hoisted target accumulates the entries of earlier iterations into later ones)", 3)
 	freshDecodeRule(c, "C13/fresh-decode-target")
 
